@@ -643,6 +643,7 @@ func init() {
 		vQRunFixed(out, "lq", 1, 1, 1, "push:1;push:2;push:3;push:4;push:5;push:6;push:7;push:8;popr;popr;pop;pop;pop;pop;pop;pop;st;restr;st;push:9;push:10;push:11;push:12")
 		vQRunFixed(out, "long", 3, 3, 1, "push:1;push:2;push:3;push:4;remove:1;remove:2;remove:3;remove:4;st;restr;st;push:5;push:6;push:7;push:8")
 		vQRunFixed(out, "long", 4, 1, 1, "push:1;push:2;push:3;push:4;push:5;push:6;push:7;push:8;remove:1;remove:2;restr;st;iter;remove:3;remove:4;remove:5;remove:6;remove:7;remove:8;restr;st;iter;push:9;push:10;push:11;push:12;push:13;push:14;push:15;push:16;iter;len")
+		vQRunFixed(out, "lq", 1, 1, 1, "push:1;push:2;push:3;push:4;push:5;push:6;push:7;push:8;popr;popr;pop;pop;pop;st;resize;st;iter")
 		vQRunFixed(out, "lq", 2, 2, 1, "push:1;push:2;push:3;push:4;push:5;push:6;push:7;push:8;push:9;pop;pop;pop;pop;hole:1;iter;resize;iter;free;iter;restr;iter;push:10;iter;reset;iter;push:11;push:12;push:13;rellac;iter;st")
 		prod := [][3]int{{4, 16, 4}, {2, 4, 8}, {2, 16, 4}, {4, 64, 2}, {16, 64, 3}, {1, 8, 256}, {2, 2, 1}, {1, 3, 4}, {2, 6, 4}}
 		for it := 0; it < n; it++ {
